@@ -60,6 +60,7 @@ func Sum
   property C20
   ensures[fold] ident(result, sumTo(v, len(v)))
   loop 0 use sumTo_zero(v)
+  use sumTo_zero(v)
   loop 0 use sumTo_step(v, rangeindex + 1)
   loop 0 invariant -1 <= rangeindex && rangeindex < len(v) && ident(sum, sumTo(v, rangeindex + 1))
 
@@ -67,6 +68,7 @@ func Product
   property C20
   ensures[fold] ident(result, prodTo(v, len(v)))
   loop 0 use prodTo_zero(v)
+  use prodTo_zero(v)
   loop 0 use prodTo_step(v, rangeindex + 1)
   loop 0 invariant -1 <= rangeindex && rangeindex < len(v) && ident(product, prodTo(v, rangeindex + 1))
 
